@@ -54,11 +54,15 @@ def expected(indices):
     return d
 
 
-def rule_fold(repo):
+def rule_fold(repo, tier='quick'):
     rr = RuleResult('C10.R1', 'subset(): rows kept, subset count, pass-through, purity and bounds folded over index collections')
     fi = repo.own_method('BufrMessage', 'subset')
     good = [[0], [4], [2], [0, 1, 2, 3, 4], [4, 0], [3, 1, 2], [0, 0], [2, 2, 2], [0, 0, 2], [4, 1, 4, 1], [1, 3], (2, 4), [3, 3, 0]]
     bad = [[5], [0, 5], [-1], [-1, 2], [7, 7], [4, 5], [-2, -1]]
+    if tier == 'thorough':
+        # every collection over 0..4 of length 1..4 (with repeats, any order), and every collection of length <= 3 over -1..5 that leaves the range
+        good = [list(c) for k in (1, 2, 3, 4) for c in itertools.product(range(N), repeat=k)]
+        bad = [list(c) for k in (1, 2, 3) for c in itertools.product(range(-1, N + 1), repeat=k) if min(c) < 0 or max(c) >= N]
     for idxs in good + bad:
         it = SubsetInterp(repo, 'BufrMessage')
         box = {}
@@ -68,7 +72,8 @@ def rule_fold(repo):
             box['msg'] = msg
             return {'self': msg, 'subset_indices': list(idxs) if isinstance(idxs, list) else tuple(idxs)}
         res = it.run_function(fi, mk, self_class='BufrMessage')
-        rr.instance('subset(%r)' % (idxs,))
+        if len(good) + len(bad) < 100:
+            rr.instance('subset(%r)' % (idxs,))
         if len(res) != 1:
             rr.fail('BufrMessage.subset:paths', fi.where, 'subset(%r) forks into %d paths on concrete input' % (idxs, len(res)))
             continue
@@ -105,7 +110,10 @@ def rule_fold(repo):
         src = box['msg'].fields['sections'][2].params[1].fields['value'].fields['decoded_values_all_subsets']
         if [repr(x) for x in src] != ['ROW%d' % i for i in range(N)] or box['msg'].fields['sections'][1].params[1].fields['value'] != N:
             rr.fail('BufrMessage.subset:purity', fi.where, 'subset(%r) leaves the source message changed' % (idxs,))
-    rr.require_floor(18)
+    if len(good) + len(bad) >= 100:
+        rr.instance('%d index collections inside the range, %d leaving it' % (len(good), len(bad)))
+        rr.instance('exhaustive over 0..%d up to length 4' % (N - 1))
+    rr.require_floor(2)
     return rr
 
 
@@ -153,7 +161,7 @@ def rule_cli(repo):
 
 def run(repo, check):
     from sa.rules import c05
-    check.run_rule(rule_fold, repo)
+    check.run_rule(rule_fold, repo, check.tier)
     check.run_rule(rule_cli, repo)
     check.run_rule(c05.rule_state_mode, repo, 'C10.R5')
     r6 = c05.rule_r7(repo)
